@@ -645,9 +645,13 @@ cpdef np.ndarray _find_row_differences(np.ndarray qflat):
     diffs: 1D array
         The indices where rows change, including the first and last. Equivalent to:
         ``[0]+[i for i in range(1, len(qflat)) if np.any(qflat[i-1] != qflat[i])] + [len(qflat)]``
+        (only ``[0]`` for a `qflat` with columns but without rows).
     """
     if qflat.shape[1] == 0:
         return np.array([0, qflat.shape[0]], dtype=np.intp)
+    if qflat.shape[0] == 0:
+        # no rows: no (empty) block between two indices, as in the python version
+        return np.zeros(1, dtype=np.intp)
     cdef int i, j, n=1, L = qflat.shape[0], M = qflat.shape[1]
     cdef bint rows_equal = False
     cdef np.ndarray[QTYPE_t, ndim=2] qflat_c = qflat
